@@ -91,3 +91,116 @@ contract(L + 'predict_cluster_labels', props=['C09', 'C01', 'C05', 'C06', 'C13',
                    "same(model.clusters[k].computed_covariance, old(model.clusters[k].computed_covariance)) and "
                    "same(model.clusters[k]._member_points, old(model.clusters[k]._member_points)))"),
                   ("def:typestate", "result._phase == 4")])
+
+AR = 'fast_ticc.containers.arguments.'
+contract(AR + 'UserArguments.print', props=['C19'], params=dict(self='obj:UserArguments', out='opaque:stream'),
+         ghost={'nullable': ['out']}, ensures=["unchanged(self)"])
+
+contract(ML + '_init_task_pool', props=['C14', 'C20'], params=dict(num_processes='int'), returns='opaque:pool',
+         # the pool size is the only thing that depends on num_processes and on the environment switch
+         ghost={'sets': {'_pool_created': 'True', '_pool_closed': 'False', '_pool_joined': 'False'}},
+         ensures=["fresh(result)", ("pool-created-and-open", "_pool_created and not _pool_closed")], effects=['reads_environment'])
+
+_RES_FIELDS = dict(bayesian_information_criterion='real', calinski_harabasz_index='real', label_assignment_cost='real',
+                   overall_log_likelihood='real', overall_log_likelihood_mean='real', overall_log_likelihood_median='real',
+                   cluster_log_likelihood_mean='arr1[real]', cluster_log_likelihood_median='arr1[real]',
+                   all_log_likelihood='list[real]', markov_random_fields='list[arr2[real]]', num_clusters='int',
+                   point_labels='list[int]', window_size='int')
+classschema('SingleDataSeriesResult', 'fast_ticc.containers.results.SingleDataSeriesResult', _RES_FIELDS)
+classschema('MultipleDataSeriesResult', 'fast_ticc.containers.results.MultipleDataSeriesResult',
+            dict(_RES_FIELDS, point_labels='list[list[int]]'))
+
+_LL = ("gauss_ll(stacked_training_data[p, :], model.clusters[{k}].stacked_data_mean, model.clusters[{k}].inverse_covariance, "
+       "model.clusters[{k}].log_determinant, model.arguments.window_size * (stacked_training_data.shape[1] / model.arguments.window_size))")
+_LB = "model._point_labels"
+contract(ML + '_compute_log_likelihood_by_cluster', props=['C06', 'C05', 'C19'],
+         params=dict(stacked_training_data='arr2[real]', model='obj:ModelState'), returns='list[list[real]]',
+         requires=["wf(model)", "model.arguments.window_size >= 1", "len(model._point_labels) == stacked_training_data.shape[0]",
+                   "forall(0, len(model.clusters), lambda k: not isnone(model.clusters[k].stacked_data_mean) and "
+                   "not isnone(model.clusters[k].inverse_covariance) and model.clusters[k].stacked_data_mean.shape[0] == stacked_training_data.shape[1] "
+                   "and model.clusters[k].inverse_covariance.shape[0] == stacked_training_data.shape[1] and "
+                   "model.clusters[k].inverse_covariance.shape[1] == stacked_training_data.shape[1])"],
+         ghost={'comps': {1: dict(kind='list[list[real]]',
+                                  inv=["len(_comp1) == i", "forall(0, i, lambda k: fresh(_comp1[k]) and allocated(_comp1[k]) and len(_comp1[k]) == 0 "
+                                       "and not same(_comp1[k], _comp1))",
+                                       "forall(lambda k1, k2: implies(0 <= k1 and k1 < k2 and k2 < i, not same(_comp1[k1], _comp1[k2])))"])}},
+         ensures=["fresh(result)", "len(result) == len(model.clusters)",
+                  # exactly one entry per labelled point: cluster k's list has one entry for every point labelled k, in point order
+                  ("one-entry-per-point-labelled-k", "forall(0, len(result), lambda k: len(result[k]) == cnt(" + _LB + ", k, len(" + _LB + ")))"),
+                  ("entry-is-that-points-log-likelihood-under-its-own-cluster", "forall(lambda k, p: implies(0 <= k and k < len(result) and "
+                   "0 <= p and p < len(" + _LB + ") and " + _LB + "[p] == k, result[k][cnt(" + _LB + ", k, p)] == " + _LL.format(k='k') + "))"),
+                  "unchanged(stacked_training_data, model)"],
+         loops={1: dict(inv=["len(cluster_log_likelihood) == len(model.clusters)",
+                             "forall(0, len(cluster_log_likelihood), lambda k: allocated(cluster_log_likelihood[k]) and fresh(cluster_log_likelihood[k]) "
+                             "and not same(cluster_log_likelihood[k], cluster_log_likelihood))",
+                             "forall(lambda k1, k2: implies(0 <= k1 and k1 < k2 and k2 < len(cluster_log_likelihood), "
+                             "not same(cluster_log_likelihood[k1], cluster_log_likelihood[k2])))",
+                             "forall(0, len(cluster_log_likelihood), lambda k: len(cluster_log_likelihood[k]) == cnt(" + _LB + ", k, _k))",
+                             "forall(lambda k, p: implies(0 <= k and k < len(cluster_log_likelihood) and 0 <= p and p < _k and " + _LB + "[p] == k, "
+                             "cnt(" + _LB + ", k, p) < cnt(" + _LB + ", k, _k) and "
+                             "cluster_log_likelihood[k][cnt(" + _LB + ", k, p)] == " + _LL.format(k='k') + "))"],
+                        modifies=['cluster_log_likelihood[*]'])})
+
+
+_CUR = "current_model_state"
+_UA_OK = ["user_args.iteration_limit > 0", "user_args.num_clusters >= 1 and user_args.num_clusters <= 65536",
+          "user_args.window_size >= 1", "user_args.min_cluster_size >= 1", "user_args.sparsity_weight >= 0",
+          "user_args.label_switching_cost >= 0", "stacked_ok(stacked_training_data, user_args.window_size)",
+          "stacked_training_data.shape[0] > user_args.num_clusters", "stacked_training_data.shape[1] < 67108864",
+          # spectral-calculus link (trusted mathematics, see x_update_prox): what a worker returns re-inflates to an SPD matrix
+          "forall(lambda t, x_e: spd_compressed_task(t, x_e))"]
+
+contract(ML + 'fit_stacked_data', props=['C09', 'C04', 'C06', 'C13', 'C14', 'C20', 'C19'],
+         params=dict(user_args='obj:UserArguments', stacked_training_data='arr2[real]'), returns='obj:SingleDataSeriesResult',
+         requires=_UA_OK,
+         raises={'WorkerError': None, 'RuntimeError': None},
+         ghost={'kind:previous_iteration_point_labels': 'list[int]', 'cumulative_posts': True,
+                'returns': dict(FINAL='current_model_state', rounds='rounds', stopped='stopped', PREV='previous_iteration_point_labels',
+                                CLL='cluster_log_likelihood'),
+                'return_kinds': dict(FINAL='obj:ModelState', rounds='int', stopped='bool', PREV='list[int]', CLL='list[list[real]]'),
+                'xensures': {'WorkerError': [("pool-released-on-failure", "_pool_closed"),
+                                             ("caller-data-untouched", "unchanged(stacked_training_data, user_args)")],
+                             'RuntimeError': [("pool-released-on-failure", "_pool_closed"),
+                                              ("caller-data-untouched", "unchanged(stacked_training_data, user_args)")]}},
+         ensures=[("at-least-one-and-at-most-limit-rounds", "1 <= rounds and rounds <= user_args.iteration_limit"),
+                  ("stops-early-only-at-a-fixed-point", "stopped or rounds == user_args.iteration_limit"),
+                  ("fixed-point-means-two-consecutive-rounds-agree", "implies(stopped, eqcontent(PREV, FINAL._point_labels))"),
+                  ("final-state-was-scored-last", "FINAL._phase == 4 and wf(FINAL)"),
+                  ("no-result-after-a-worker-failure", "not _any_task_failed"),
+                  ("pool-released", "_pool_created and _pool_closed and _pool_joined"),
+                  ("labels-are-the-final-states", "len(result.point_labels) == stacked_training_data.shape[0] and "
+                   "forall(0, len(result.point_labels), lambda p: result.point_labels[p] == FINAL._point_labels[p])"),
+                  ("labels-in-range", "forall(0, len(result.point_labels), lambda p: 0 <= result.point_labels[p] and "
+                   "result.point_labels[p] < user_args.num_clusters)"),
+                  ("cost-is-the-final-states", "result.label_assignment_cost == FINAL.label_assignment_cost"),
+                  ("K-mrfs-of-the-final-state", "len(result.markov_random_fields) == user_args.num_clusters and "
+                   "forall(0, user_args.num_clusters, lambda k: same(result.markov_random_fields[k], FINAL.clusters[k].train_inverse))"),
+                  ("echoes-K-and-W", "result.num_clusters == user_args.num_clusters and result.window_size == user_args.window_size"),
+                  # accounting (C06): the per-point list is the concatenation of the per-cluster lists, aggregates are taken over exactly it
+                  ("per-point-list-is-the-concatenation", "chain_offset(result.all_log_likelihood, 0) == 0 and "
+                   "forall(0, len(CLL), lambda k: chain_offset(result.all_log_likelihood, k + 1) == chain_offset(result.all_log_likelihood, k) + len(CLL[k])) and "
+                   "len(result.all_log_likelihood) == chain_offset(result.all_log_likelihood, len(CLL))"),
+                  ("per-cluster-lists-have-one-entry-per-point-labelled-k", "len(CLL) == user_args.num_clusters and "
+                   "forall(0, len(CLL), lambda k: len(CLL[k]) == cnt(FINAL._point_labels, k, len(FINAL._point_labels)))"),
+                  ("overall-aggregates-over-exactly-that-list", "result.overall_log_likelihood == sum_of(result.all_log_likelihood) and "
+                   "result.overall_log_likelihood_mean == mean_of(result.all_log_likelihood) and "
+                   "result.overall_log_likelihood_median == median_of(result.all_log_likelihood)"),
+                  ("cluster-aggregates-over-that-clusters-points-or-zero", "result.cluster_log_likelihood_mean.shape[0] == len(CLL) and "
+                   "forall(0, len(CLL), lambda k: result.cluster_log_likelihood_mean[k] == ite(len(CLL[k]) > 0, mean_of(CLL[k]), 0) and "
+                   "result.cluster_log_likelihood_median[k] == ite(len(CLL[k]) > 0, median_of(CLL[k]), 0))"),
+                  "fresh(result)", "unchanged(stacked_training_data, user_args)"],
+         loops={1: dict(ghost={'rounds': '0', 'stopped': 'False'}, ghost_update={'rounds': 'rounds + 1'},
+                        ghost_break={'rounds': 'rounds + 1', 'stopped': 'True'},
+                        inv=["rounds == current_iteration", "not stopped", "not _any_task_failed",
+                             "_pool_created and not _pool_closed and not _pool_joined",
+                             "wf(" + _CUR + ")", "fresh(" + _CUR + ")", "same(" + _CUR + ".arguments, user_args)",
+                             "len(" + _CUR + "._point_labels) == stacked_training_data.shape[0]",
+                             _CUR + "._phase == ite(current_iteration == 0, 0, 4)",
+                             "implies(current_iteration > 0, forall(0, len(" + _CUR + ".clusters), lambda k: "
+                             "not isnone(" + _CUR + ".clusters[k].computed_covariance) and not isnone(" + _CUR + ".clusters[k].train_inverse)))",
+                             "implies(current_iteration > 0, not isnone(previous_iteration_point_labels) and "
+                             "eqcontent(previous_iteration_point_labels, " + _CUR + "._point_labels))",
+                             "implies(current_iteration == 0, isnone(previous_iteration_point_labels))"],
+                        modifies=[]),
+                2: dict(inv=["len(labels) == num_data_points", "forall(0, i, lambda p: labels[p] == " + _CUR + "._point_labels[p])"],
+                        modifies=['labels'])})
